@@ -28,10 +28,6 @@
 using namespace c19;
 namespace dns = iora::network::dns;
 
-// Reports are printed unsymbolised (in-process symbolisation costs ~0.25 s per dying evaluator); the worker resolves
-// the few distinct frame addresses with addr2line and caches them.
-extern "C" const char *__ubsan_default_options() { return "print_stacktrace=1:symbolize=0"; }
-extern "C" const char *__asan_default_options() { return "detect_leaks=0:allocator_may_return_null=1:symbolize=0"; }
 
 // ------------------------------------------------------------------------------------------------------------
 // iora adapter
@@ -408,75 +404,8 @@ static const char *kCtrName[C_N] = {"evaluations",
                                     "mutants_rdlength",
                                     "typed_records_with_unpopulated_class"};
 
-struct IsoShm
-{
-  volatile uint64_t beats;
-  volatile uint32_t job, mutant, inCase, done;
-  volatile uint32_t caseLen;
-  char caseBuf[1 << 15];
-  char desc[160];
-  uint64_t counters[C_N];
-  uint32_t nsig;
-  struct SigEnt
-  {
-    char key[224];
-    uint64_t n;
-  } sigs[256];
-  uint32_t violUsed;
-  char viol[1 << 21];
-};
-static IsoShm *g_shm = nullptr;
-
-static void gPublish(uint32_t job, uint32_t mutant, const Bytes &kase, const char *desc)
-{
-  size_t n = kase.size() < sizeof(g_shm->caseBuf) ? kase.size() : sizeof(g_shm->caseBuf);
-  memcpy(g_shm->caseBuf, kase.data(), n);
-  g_shm->caseLen = uint32_t(n);
-  snprintf(g_shm->desc, sizeof g_shm->desc, "%s", desc);
-  g_shm->job = job;
-  g_shm->mutant = mutant;
-  g_shm->inCase = 1;
-  g_shm->beats = g_shm->beats + 1;
-}
-static void gViolation(const std::string &clause, const std::string &sig, const Bytes &kase, const std::string &detail)
-{
-  std::string key = (clause + "/" + sig).substr(0, sizeof(g_shm->sigs[0].key) - 1);
-  uint32_t i = 0;
-  for (; i < g_shm->nsig; ++i)
-    if (key == g_shm->sigs[i].key)
-      break;
-  if (i == g_shm->nsig)
-  {
-    if (g_shm->nsig >= 256)
-      i = 255; // overflow bucket (never expected)
-    else
-    {
-      snprintf(g_shm->sigs[i].key, sizeof g_shm->sigs[i].key, "%s", key.c_str());
-      g_shm->sigs[i].n = 0;
-      g_shm->nsig++;
-    }
-  }
-  uint64_t n = ++g_shm->sigs[i].n;
-  if (n > 3)
-    return;
-  std::string d = detail.substr(0, 1000);
-  size_t need = 16 + clause.size() + sig.size() + kase.size() + d.size();
-  if (g_shm->violUsed + need > sizeof(g_shm->viol))
-    return;
-  char *p = g_shm->viol + g_shm->violUsed;
-  uint32_t l[4] = {uint32_t(clause.size()), uint32_t(sig.size()), uint32_t(kase.size()), uint32_t(d.size())};
-  memcpy(p, l, 16);
-  p += 16;
-  memcpy(p, clause.data(), l[0]);
-  p += l[0];
-  memcpy(p, sig.data(), l[1]);
-  p += l[1];
-  memcpy(p, kase.data(), l[2]);
-  p += l[2];
-  memcpy(p, d.data(), l[3]);
-  g_shm->violUsed += uint32_t(need);
-}
-#define CTR(x) (g_shm->counters[x])
+static_assert(C_N <= 48, "enlarge ISO_MAX_CTR in C19_iso.hpp");
+#include "C19_iso.hpp"
 
 // ------------------------------------------------------------------------------------------------------------
 // Evaluation (runs in the evaluator child)
@@ -728,230 +657,6 @@ static void evalBatch(const std::vector<Job> &jobs, uint32_t startJob, uint32_t 
 }
 
 // ------------------------------------------------------------------------------------------------------------
-// Worker-side isolation driver
-// ------------------------------------------------------------------------------------------------------------
-static std::string crashSig(const std::string &err, int status, bool hung, const Bytes &kase)
-{
-  if (hung)
-  {
-    Bytes m = kase.size() > 2 ? kase.substr(2) : Bytes();
-    RefDecoded ref = refDecode(m);
-    if (ref.badPointer)
-      return "hang:pointer-" + ref.badKind + ":" + ref.badSite;
-    return "hang:" + (ref.ok ? std::string("decodable") : ref.fail);
-  }
-  std::string kind, func;
-  size_t p;
-  if ((p = err.find("runtime error: ")) != std::string::npos)
-  {
-    size_t e = err.find('\n', p);
-    kind = err.substr(p + 15, e == std::string::npos ? std::string::npos : e - p - 15);
-    size_t t = kind.find(" of type");
-    if (t != std::string::npos)
-      kind = kind.substr(0, t);
-    std::string k2;
-    for (char c : kind)
-      if (!isdigit((unsigned char)c))
-        k2.push_back(c);
-    kind = k2.substr(0, 60);
-  }
-  else if ((p = err.find("AddressSanitizer: ")) != std::string::npos)
-  {
-    size_t e = err.find_first_of(" \n", p + 18);
-    kind = "asan:" + err.substr(p + 18, e == std::string::npos ? std::string::npos : e - p - 18);
-  }
-  else if (WIFSIGNALED(status))
-    kind = "signal-" + std::to_string(WTERMSIG(status));
-  else
-    kind = "exit-" + std::to_string(WEXITSTATUS(status));
-  // innermost iora frame: resolve the (unsymbolised) frames of this executable with addr2line, cached per address
-  {
-    static std::map<std::string, std::string> cache;
-    static std::string exe;
-    if (exe.empty())
-    {
-      char b[4096];
-      ssize_t n = readlink("/proc/self/exe", b, sizeof b - 1);
-      exe = n > 0 ? std::string(b, size_t(n)) : "?";
-    }
-    size_t q = 0;
-    int frames = 0;
-    while (func.empty() && frames < 8 && (q = err.find("(" + exe + "+0x", q)) != std::string::npos)
-    {
-      q += exe.size() + 2;
-      size_t e = err.find(')', q);
-      if (e == std::string::npos)
-        break;
-      std::string off = err.substr(q, e - q);
-      ++frames;
-      auto it = cache.find(off);
-      if (it == cache.end())
-      {
-        std::string res, cmd = "addr2line -f -i -C -e '" + exe + "' " + off + " 2>/dev/null";
-        if (FILE *f = popen(cmd.c_str(), "r"))
-        {
-          char line[2048];
-          while (fgets(line, sizeof line, f))
-            if (res.empty() && strncmp(line, "iora::", 6) == 0)
-              res = line;
-          pclose(f);
-        }
-        it = cache.emplace(off, res).first;
-      }
-      func = it->second;
-    }
-    size_t e = func.find_first_of("(\n");
-    if (e != std::string::npos)
-      func = func.substr(0, e);
-    const std::string ns = "iora::network::dns::";
-    if (func.rfind(ns, 0) == 0)
-      func = func.substr(ns.size());
-  }
-  return kind + (func.empty() ? "" : "@" + func);
-}
-
-struct Iso
-{
-  vr::Report *rep = nullptr;
-  int hangs = 0, crashes = 0;
-  bool aborted = false;
-  double stall = 10;
-
-  void merge()
-  {
-    for (int i = 0; i < C_N; ++i)
-    {
-      if (i == C_EVAL)
-        rep->evaluations += g_shm->counters[i];
-      else if (g_shm->counters[i])
-        rep->counters[kCtrName[i]] += g_shm->counters[i];
-      g_shm->counters[i] = 0;
-    }
-    for (uint32_t i = 0; i < g_shm->nsig; ++i)
-    {
-      rep->sig_counts[g_shm->sigs[i].key] += g_shm->sigs[i].n;
-      rep->violation_total += g_shm->sigs[i].n;
-    }
-    g_shm->nsig = 0;
-    size_t p = 0;
-    while (p + 16 <= g_shm->violUsed)
-    {
-      uint32_t l[4];
-      memcpy(l, g_shm->viol + p, 16);
-      p += 16;
-      std::string c(g_shm->viol + p, l[0]);
-      p += l[0];
-      std::string s(g_shm->viol + p, l[1]);
-      p += l[1];
-      std::string k(g_shm->viol + p, l[2]);
-      p += l[2];
-      std::string d(g_shm->viol + p, l[3]);
-      p += l[3];
-      size_t kept = 0;
-      for (auto &v : rep->violations)
-        if (v.clause == c && v.sig == s)
-          ++kept;
-      if (kept < rep->keep_per_sig)
-        rep->violations.push_back(vr::Violation{c, s, k, d});
-    }
-    g_shm->violUsed = 0;
-  }
-
-  void run(const std::vector<Job> &jobs)
-  {
-    if (jobs.empty() || aborted)
-      return;
-    uint32_t startJob = 0, startMutant = 0;
-    for (;;)
-    {
-      int pfd[2];
-      if (pipe(pfd) != 0)
-      {
-        rep->violation("harness-internal", "pipe-failed", "", "pipe()");
-        return;
-      }
-      g_shm->done = 0;
-      g_shm->inCase = 0;
-      fflush(nullptr);
-      pid_t pid = fork();
-      if (pid == 0)
-      {
-        prctl(PR_SET_PDEATHSIG, SIGKILL);
-        close(pfd[0]);
-        dup2(pfd[1], 2);
-        close(pfd[1]);
-        evalBatch(jobs, startJob, startMutant);
-        g_shm->done = 1;
-        _exit(0);
-      }
-      close(pfd[1]);
-      std::string err;
-      uint64_t lastBeat = g_shm->beats;
-      double lastAt = vr::now_s();
-      bool hung = false;
-      for (;;)
-      {
-        struct pollfd pf = {pfd[0], POLLIN, 0};
-        int pr = poll(&pf, 1, 250);
-        if (pr > 0)
-        {
-          char buf[4096];
-          ssize_t n = read(pfd[0], buf, sizeof buf);
-          if (n <= 0)
-            break; // EOF: evaluator gone
-          if (err.size() < 16384)
-            err.append(buf, size_t(n));
-          continue;
-        }
-        double t = vr::now_s();
-        if (g_shm->beats != lastBeat)
-        {
-          lastBeat = g_shm->beats;
-          lastAt = t;
-        }
-        else if (t - lastAt > stall)
-        {
-          kill(pid, SIGKILL);
-          hung = true;
-          break;
-        }
-      }
-      close(pfd[0]);
-      int st = 0;
-      waitpid(pid, &st, 0);
-      if (!hung && WIFEXITED(st) && WEXITSTATUS(st) == 0 && g_shm->done)
-        break;
-      // the evaluator died or stalled inside (job, mutant)
-      Bytes kase(g_shm->caseBuf, g_shm->caseLen);
-      std::string desc = g_shm->desc;
-      std::string sig = crashSig(err, st, hung, kase);
-      std::string firstLines = err.substr(0, 600);
-      if (!g_shm->inCase && !hung)
-        rep->violation("harness-internal", "evaluator-died-outside-case", kase, "status " + std::to_string(st) + " " + firstLines);
-      else if (hung)
-        rep->violation("terminates", sig, kase, desc + ": no progress for " + std::to_string(int(stall)) + " s inside DnsMessage::parse (evaluator killed)");
-      else
-        rep->violation("no-crash-no-ub", sig, kase, desc + ": evaluator died (" + (WIFSIGNALED(st) ? "signal " + std::to_string(WTERMSIG(st)) : "exit status " + std::to_string(WEXITSTATUS(st))) + ") :: " + firstLines);
-      rep->evaluations += 1; // the case that never returned
-      if (hung)
-        ++hangs;
-      else
-        ++crashes;
-      startJob = g_shm->job;
-      startMutant = g_shm->mutant + 1;
-      if (hangs >= 3)
-      {
-        aborted = true;
-        rep->exhaustive = false;
-        rep->notes.push_back("3 hangs in one worker: remaining cases of this shard not evaluated (each hang costs the stall timeout)");
-        break;
-      }
-    }
-    merge();
-  }
-};
-
-// ------------------------------------------------------------------------------------------------------------
 // Families
 // ------------------------------------------------------------------------------------------------------------
 static const uint16_t kTypes[11] = {T_A, T_AAAA, T_CNAME, T_MX, T_SRV, T_NAPTR, T_TXT, T_PTR, T_SOA, T_UNK, T_NS};
@@ -1129,7 +834,7 @@ struct Gen
     if (batch.empty())
       return;
     sh->begin(lastIdxBegun, batch.front().kase);
-    iso.run(batch);
+    iso.run(batch.size(), [&](uint32_t sj, uint32_t sm) { evalBatch(batch, sj, sm); });
     sh->end();
     batch.clear();
     batchBytes = 0;
@@ -1154,8 +859,7 @@ struct Gen
       rep->counters["dry_messages"]++;
       if (j.mutate)
       {
-        uint64_t n = 0;
-        forEachMutant(j.built, [&](const char *, const Bytes &) { ++n; });
+        uint64_t n = j.built.wire.size() * 15 / 2; // estimate
         rep->counters["dry_mutants"] += n;
         rep->counters[std::string("dry_mutants_") + j.label.substr(0, j.label.find(' '))] += n;
       }
@@ -1170,7 +874,8 @@ struct Gen
   }
 
   // one spec, every compression layout
-  void layouts(MsgSpec spec, const char *family, bool mutate, bool lenientCompress = false)
+  // allTargets / latestOnly: see Builder
+  void layouts(MsgSpec spec, const char *family, bool mutate, bool allTargets = true, bool latestOnly = false)
   {
     if (timeUp())
       return;
@@ -1180,7 +885,8 @@ struct Gen
     {
       Builder bl;
       bl.odo = &odo;
-      bl.compressAny = lenientCompress;
+      bl.allTargets = allTargets;
+      bl.latestOnly = latestOnly;
       bl.build(spec);
       ++n;
       rep->counters["generated_messages"]++; // counted by every worker alike; divided out below
@@ -1259,27 +965,34 @@ static bool isLong(const Name &n) { return wireLen(n) > 60; }
 static void families(Gen &g, bool thorough)
 {
   vr::Report &r = *g.rep;
-  std::vector<Name> N6 = {nameAB(), nameRoot(), nameA(), nameB(), nameL63(), name255()};
+  const std::vector<Name> S = {nameAB(), nameRoot(), nameA(), nameB()}; // short names
+  const std::vector<Name> L = {nameL63(), name255()};                    // long names
+  std::vector<Name> SL = S;
+  SL.insert(SL.end(), L.begin(), L.end());
   // ---- P1: single record, all name choices x all compression layouts -----------------------------------------
-  int maxLong = thorough ? 2 : 1;
-  r.bounds["P1"] = "1 record; type in 11 types {A,AAAA,CNAME,MX,SRV,NAPTR,TXT,PTR,SOA,unknown(0xff00),NS}; question/owner/RDATA names each in "
-                   "{a.b, root, a, b, 63-byte label, 255-byte name}, at most " +
-                   std::to_string(maxLong) + " long (>60 byte) names per message; default RDATA values; every compression layout; all mutations";
+  r.bounds["P1"] = std::string("1 record; type in 11 types {A,AAAA,CNAME,MX,SRV,NAPTR,TXT,PTR,SOA,unknown(0xff00),NS}; question / owner / RDATA names each in "
+                   "{a.b, root, a, b, 63-byte label, 255-byte name} with at most 2 long (>60 byte) names per message; default RDATA values; EVERY "
+                   "compression layout (pointer targets: every earlier label start, earlier pointer (chains) and earlier root byte). Mutations for: "
+                   "all-short-name messages") + (thorough ? "; " : " not using the name 'a'; ") +
+                   (thorough ? "all messages with 1 long name; messages with 2 long names of types A/CNAME/SOA whose other names are a.b"
+                             : "messages with 1 long name of types A/CNAME/SOA whose other names are a.b (quick)");
   for (uint16_t t : kTypes)
-    for (auto &qn : N6)
-      for (auto &ow : N6)
-        for (auto &n1 : N6)
-          for (auto &n2 : N6)
+    for (auto &qn : SL)
+      for (auto &ow : SL)
+        for (auto &n1 : SL)
+          for (auto &n2 : SL)
           {
-            if (!typeHasName(t) && !(n1 == N6[0]))
+            if (!typeHasName(t) && !(n1 == SL[0]))
               continue;
-            if (t != T_SOA && !(n2 == N6[0]))
+            if (t != T_SOA && !(n2 == SL[0]))
               continue;
             int nl = isLong(qn) + isLong(ow) + (typeHasName(t) && isLong(n1)) + (t == T_SOA && isLong(n2));
-            if (nl > maxLong)
+            if (nl > 2)
               continue;
-            if (!thorough && nl == 1 && t != T_A && t != T_CNAME && t != T_SOA && t != T_SRV && (isLong(qn) || isLong(ow)))
-              continue; // quick: long question/owner names only with 4 representative types
+            bool usesA = qn == SL[2] || ow == SL[2] || n1 == SL[2] || n2 == SL[2];
+            bool rep3 = t == T_A || t == T_CNAME || t == T_SOA;
+            bool othersAB = (isLong(qn) || qn == SL[0]) && (isLong(ow) || ow == SL[0]) && (isLong(n1) || n1 == SL[0]) && (isLong(n2) || n2 == SL[0]);
+            bool mutate = (nl == 0 && (thorough || !usesA)) || (nl == 1 && (thorough || (rep3 && othersAB))) || (nl == 2 && thorough && rep3 && othersAB);
             MsgSpec m = baseMsg(qn);
             RecSpec rec = defaultRec(t);
             rec.owner = ow;
@@ -1287,7 +1000,7 @@ static void families(Gen &g, bool thorough)
             rec.n2 = n2;
             m.qtype = t;
             m.recs.push_back(rec);
-            g.layouts(m, "P1", true);
+            g.layouts(m, nl == 0 ? "P1-short" : nl == 1 ? "P1-1long" : "P1-2long", mutate);
           }
   // boundary names 253 / 254 / 255 wire bytes, one at a time
   r.bounds["P1b"] = "names of 253/254/255 wire bytes as question, owner or RDATA name of A / CNAME / SOA records; every layout; all mutations (thorough)";
@@ -1308,8 +1021,8 @@ static void families(Gen &g, bool thorough)
       }
   // ---- P2: single record, all RDATA values / TTLs / classes / sections / header flags ------------------------
   r.bounds["P2"] = "1 record; names a.b; every RDATA value of the per-type value sets (address / text bytes over {00,3f,40,c0,ff}, 0/63/64/191/192/255-byte "
-                   "strings, u16/u32 extremes) x section in {AN,NS,AR}; TTL in {0,1,3600,2^31-1,2^31,2^32-1} x class in {IN,CH,255,0xc00c}; flags in "
-                   "{8180,8583,8200,ffff}; every layout; all mutations";
+                   "strings, u16/u32 extremes) x section in {AN,NS,AR} (quick: mutations for AN only); TTL in {0,1,3600,2^31-1,2^31,2^32-1} x class in {IN,CH,255,0xc00c}; flags in "
+                   "{8180,8583,8200,ffff,0100}; every layout; all mutations";
   for (uint16_t t : kTypes)
   {
     auto vars = valueVariants(t);
@@ -1320,7 +1033,7 @@ static void families(Gen &g, bool thorough)
         RecSpec rec = v;
         rec.section = sec;
         m.recs.push_back(rec);
-        g.layouts(m, "P2", true);
+        g.layouts(m, "P2", thorough || sec == 0);
       }
     for (uint32_t ttl : {0u, 1u, 3600u, 0x7fffffffu, 0x80000000u, 0xffffffffu})
       for (uint16_t cls : {uint16_t(1), uint16_t(3), uint16_t(255), uint16_t(0xc00c)})
@@ -1350,15 +1063,16 @@ static void families(Gen &g, bool thorough)
     g.layouts(m, "P2", true);
   }
   // ---- P3: two and three records, all type tuples ------------------------------------------------------------
-  r.bounds["P3"] = std::string("2 records: all 121 type pairs x sections {AN+AN, AN+NS, NS+AR}; names a.b / b; every layout; all mutations. 3 records: ") +
-                   (thorough ? "all 1331 type triples" : "all triples over {A,CNAME,MX,SOA,TXT,SRV}") +
-                   " in AN+NS+AR, names a.b / b; every layout; " + (thorough ? "all mutations" : "mutations for pairs only (quick)");
+  r.bounds["P3"] = std::string("2 records: all 121 type pairs x sections {AN+AN") + (thorough ? ", AN+NS, NS+AR" : "") +
+                   "}; names a.b / b; every layout over label-start targets; mutations for " + (thorough ? "all pairs" : "the 49 pairs over {A,AAAA,CNAME,MX,TXT,SOA,unknown} (quick)") + ". 3 records (AN+NS+AR): all 1331 type triples, names a.b / b / a; "
+                   "layouts: per name and split point the most recent matching label start; mutations " +
+                   (thorough ? "for the 512 triples over {A,CNAME,MX,SRV,NAPTR,TXT,SOA,unknown}" : "for the 27 triples over {A,CNAME,TXT} (quick)");
   static const int secPairs[3][2] = {{0, 0}, {0, 1}, {1, 2}};
   for (uint16_t t1 : kTypes)
     for (uint16_t t2 : kTypes)
       for (auto &sp : secPairs)
       {
-        if (!thorough && sp[0] != 0)
+        if (!thorough && sp[0] + sp[1] != 0)
           continue;
         MsgSpec m = baseMsg();
         RecSpec a = defaultRec(t1, sp[0]), b = defaultRec(t2, sp[1]);
@@ -1366,13 +1080,16 @@ static void families(Gen &g, bool thorough)
         b.owner = nameB();
         b.n2 = nameB();
         m.recs = {a, b};
-        g.layouts(m, "P3", true);
+        auto in7 = [](uint16_t t) { return t == T_A || t == T_AAAA || t == T_CNAME || t == T_MX || t == T_TXT || t == T_SOA || t == T_UNK; };
+        g.layouts(m, "P3-pairs", thorough || (in7(t1) && in7(t2)), false, false);
       }
-  std::vector<uint16_t> tri = thorough ? std::vector<uint16_t>(kTypes, kTypes + 11) : std::vector<uint16_t>{T_A, T_CNAME, T_MX, T_SOA, T_TXT, T_SRV};
-  for (uint16_t t1 : tri)
-    for (uint16_t t2 : tri)
-      for (uint16_t t3 : tri)
+  for (uint16_t t1 : kTypes)
+    for (uint16_t t2 : kTypes)
+      for (uint16_t t3 : kTypes)
       {
+        auto in3 = [](uint16_t t) { return t == T_A || t == T_CNAME || t == T_TXT; };
+        auto in8 = [](uint16_t t) { return t != T_NS && t != T_PTR && t != T_AAAA; };
+        bool mutate = thorough ? (in8(t1) && in8(t2) && in8(t3)) : (in3(t1) && in3(t2) && in3(t3));
         MsgSpec m = baseMsg();
         RecSpec a = defaultRec(t1, 0), b = defaultRec(t2, 1), c = defaultRec(t3, 2);
         a.n1 = nameB();
@@ -1380,7 +1097,7 @@ static void families(Gen &g, bool thorough)
         c.n1 = nameB();
         c.n2 = nameA();
         m.recs = {a, b, c};
-        g.layouts(m, "P3", thorough);
+        g.layouts(m, "P3-triples", mutate, false, true);
       }
   // ---- P4: clean poisoned messages: the only defect is one bad pointer ---------------------------------------
   r.bounds["P4"] = "1- and 2-record messages of every type (pair), names a.b in full; one name occurrence (question, owner, each RDATA name) replaced by a "
